@@ -172,7 +172,17 @@ def check_case(res, rng, style, metric, update_first=False, tree_init=None, comp
                 res.violation(key + ":" + bad.split(".")[0], "caller's %s changed after %s" % (bad, ops_done), {**case, "ops": list(ops_done)})
                 break
     except Exception as e:  # noqa
-        if not (isinstance(e, ValueError) and "compressed" in str(e)):
+        if style == "csr32dup":
+            # non-canonical CSR (duplicate entries) is outside what the sparse kernels are written for (sorted, duplicate-free rows):
+            # an operation that raises on it is not this property's concern - that the caller's arrays are untouched is
+            bad = w.changed()
+            res.count("noncanonical_csr_raised")
+            res.notes.append("non-canonical CSR input: %s: %s after %s (arrays %s)" % (type(e).__name__, str(e)[:120], ops_done,
+                                                                                   "changed: " + bad if bad else "unchanged"))
+            if bad:
+                res.violation(key + ":" + bad.split(".")[0], "caller's %s changed after %s (the operation then raised %s)"
+                              % (bad, ops_done, type(e).__name__), {**case, "ops": list(ops_done)})
+        elif not (isinstance(e, ValueError) and "compressed" in str(e)):
             res.violation(key + ":exception", "%s: %s after %s" % (type(e).__name__, str(e)[:200], ops_done), case)
     res.case((style, metric, n, tree_init, tuple(sorted(extra)), tuple(ops_done)), nontrivial=len(ops_done) > 3,
              sample={**case, "ops": list(ops_done), "model": cls})
